@@ -67,7 +67,7 @@ add("C19", "exploration", "runtime monitoring: NAT-rewriting simulated paths; gr
     "Paths with 0..3 NAT devices, silent hops and all port directions: each responding hop's status is compared with the ground truth (quoted checksum vs. previous responder / probe as sent); non Dublin/IPv4/UDP cells must stay NotApplicable.",
     SIM_NOTE, "DESIGN.md 3 C19")
 add("C16", "exploration", "runtime monitoring: differential monitor over the real option-resolution path (clap parser + TOML config file + defaults) and the real Builder; accepted configurations are run over simulated sockets",
-    "Random (command line, config file) pairs go through the real clap parser, the real TOML loader and TrippyConfig::build_config; every resolved field is compared with an independent precedence model (command line > file > default), derived fields with their documented derivation, and every accepted configuration is handed to the real Builder and run for rounds over simulated sockets: it must run without a configuration-caused failure. The Builder alone is also driven over the configuration product.",
+    "Random (command line, config file) pairs go through the real clap parser, the real TOML loader and TrippyConfig::build_config; every resolved field is compared with an independent precedence model (command line > file > default), derived fields with their documented derivation, the tracer and front end configuration produced by the application's own start_tracer / make_tui_config must carry every resolved value, and every accepted configuration is handed to the real Builder and run for rounds over simulated sockets: it must run without a configuration-caused failure. The Builder alone is also driven over the configuration product.",
     SIM_NOTE + " The option table in harness/src/props/c16.rs is transcribed from docs / trippy-config-sample.toml.", "DESIGN.md 3 C16")
 add("C17", "exploration", "runtime monitoring: the real TuiApp + render() driven on a ratatui TestBackend by random key sessions interleaved with trace updates, panic capture and a per-step watchdog",
     "Sessions of hundreds of steps interleave every bound key (routed as run_app routes them), terminal resizes down to 1x1, trace snapshots that grow / shrink / empty / change flows, clears and multiple traces; each step draws the real UI; any panic or a draw that does not return is a violation; after every step the selection invariants are asserted.",
